@@ -27,6 +27,7 @@ UNITS = {
     # unit -> (generated module file, theorem files that must check against it, in dependency order)
     "statistics": ("PhystGen/StatisticsSrc.lean", ["PhystGen/C14_Source.lean", "PhystGen/C06_Source.lean"]),
     "config": ("PhystGen/ConfigSrc.lean", ["PhystGen/C19_Source.lean"]),
+    "version": ("PhystGen/VersionSrc.lean", ["PhystGen/C08_Source.lean"]),
 }
 
 
